@@ -1,11 +1,229 @@
+import TinsModel.RadioTap.Spec
 import Driver.Util
-/- line-protocol driver for property C11 (stub until the area is built) -/
+/- line-protocol driver for RadioTap (property C11): model mode and spec (oracle) mode.
+   ops:  tail | new | parse <hex> | set <field> <hex> | add <bit> <hex> | ser <hex|-> -/
 namespace Driver.C11
-open Driver
+open Tins Tins.RT Driver
 
-def step (st : Unit) (_line : String) : Unit × String := (st, "unimplemented")
-def specStep (st : Unit) (_line : String) : Unit × String := (st, "unimplemented")
-def initModel : Unit := ()
-def initSpec : Unit := ()
+def M : Meta := genMeta
+
+/-- what the harness appends to the bytes of a `parse` op: a protected 802.11 data frame header + 4 bytes -/
+def tailBytes : Bytes :=
+  [0x08, 0x40, 0, 0, 0, 0, 0, 0, 0, 0, 0, 0, 0, 0, 0, 0, 0, 0, 0, 0, 0, 0, 0, 0, 0xc0, 0xc1, 0xc2, 0xc3]
+
+def excName : Exc → String
+  | .malformedPacket => "malformed_packet"
+  | .malformedOption => "malformed_option"
+  | .fieldNotPresent => "field_not_present"
+
+def leNat (bs : Bytes) : Nat := bs.foldr (fun b acc => b.toNat + 256 * acc) 0
+
+def showOut {α} (f : α → String) : Out α → String
+  | .ok a => f a
+  | .throw e => "!" ++ excName e
+  | .fault s => "!FAULT:" ++ s
+
+/-- (bit, width) of the getter `name` in the table generated from src/radiotap.cpp -/
+def getterOf (name : String) : Nat × Nat :=
+  match Gen.getters.find? (fun g => g.1 == name) with
+  | some g => g.2
+  | none => (99, 99)
+
+def setterOf (name : String) : Nat × Nat :=
+  match Gen.setters.find? (fun g => g.1 == name) with
+  | some g => g.2
+  | none => (99, 99)
+
+def slice (d : Bytes) (a n : Nat) : Nat := leNat ((d.drop a).take n)
+
+def getInt (buf : Bytes) (name : String) : String :=
+  let (b, w) := getterOf name
+  showOut (fun d => toString (leNat d)) (getField M buf b w true)
+
+def showState (tag : String) (s : State) : String :=
+  let buf := s.payload
+  let chf := let (b, w) := getterOf "channel_freq"; showOut (fun d => toString (slice d 0 2)) (getField M buf b w false)
+  let cht := let (b, w) := getterOf "channel_type"; showOut (fun d => toString (slice d 2 2)) (getField M buf b w false)
+  let xch := let (b, w) := getterOf "xchannel"
+    showOut (fun d => s!"{slice d 0 4}/{slice d 4 2}/{slice d 6 1}/{slice d 7 1}") (getField M buf b w false)
+  let mcs := let (b, w) := getterOf "mcs"
+    showOut (fun d => s!"{slice d 0 1}/{slice d 1 1}/{slice d 2 1}") (getField M buf b w false)
+  s!"{tag} pl={toHex buf} pr={showOut toString (present M buf)} hs={4 + buf.length} tr={showOut toString (trailerSize M buf)}" ++
+  s!" tsft={getInt buf "tsft"} flags={getInt buf "flags"} rate={getInt buf "rate"} chfreq={chf} chtype={cht}" ++
+  s!" dbmsig={getInt buf "dbm_signal"} dbmnoise={getInt buf "dbm_noise"} sq={getInt buf "signal_quality"}" ++
+  s!" ant={getInt buf "antenna"} dbsig={getInt buf "db_signal"} rxf={getInt buf "rx_flags"} txf={getInt buf "tx_flags"}" ++
+  s!" dr={getInt buf "data_retries"} xch={xch} mcs={mcs}"
+
+def defaultState : State :=
+  match defaultCtor M with
+  | .ok s => s
+  | _ => { payload := zeros 4 }
+
+def stepOut (st : State) (tag : String) : Out State → State × String
+  | .ok s => (s, showState tag s)
+  | .throw e => (st, "throw " ++ excName e)
+  | .fault f => (st, "FAULT model:" ++ f)
+
+def serLine (st : State) (inner : Bytes) : String :=
+  match serializeHdr M st inner.length with
+  | .throw e => "throw " ++ excName e
+  | .fault f => "FAULT model:" ++ f
+  | .ok (n, hdr, tr) =>
+    let fcs := if tr == 4 then (if inner.isEmpty then "zero" else "ok") else "none"
+    let re := match parseCtor M hdr n with
+      | .ok (s2, rest) =>
+        s!"re={toHex s2.payload} reinner=" ++ (if rest == 0 then "none" else if rest == inner.length then "same" else "diff")
+      | .throw e => s!"re=!{excName e} reinner=none"
+      | .fault f => s!"re=!FAULT:{f} reinner=none"
+    s!"ser n={n} hdr={toHex hdr} body=inner fcs={fcs} {re}"
+
+def step (st : State) (line : String) : State × String :=
+  match words line with
+  | ["tail"] => (st, "tail " ++ toHex tailBytes)
+  | ["new"] => stepOut st "new" (defaultCtor M)
+  | ["parse", h] => match parseHex h with
+    | some b =>
+      let all := b ++ tailBytes
+      stepOut defaultState "parsed" ((parseCtor M all all.length).bind (fun r => .ok r.1))
+    | none => (st, "bad-op")
+  | ["set", f, h] => match parseHex h with
+    | some v =>
+      let (b, w) := setterOf f
+      -- the typed setter writes `w` bytes of the value (C++ integral conversion keeps the low bytes)
+      stepOut st "set" (addOption M st b (v.take w))
+    | none => (st, "bad-op")
+  | ["add", n, h] => match n.toNat?, parseHex h with
+    | some b, some v => stepOut st "add" (addOption M st b v)
+    | _, _ => (st, "bad-op")
+  | ["ser", h] => match parseHex h with
+    | some inner => (st, serLine st inner)
+    | none => (st, "bad-op")
+  | _ => (st, "bad-op")
+
+def initModel : State := defaultState
+
+/-! ### oracle -/
+
+/-- field names of the setters → present bit, from the radiotap standard -/
+def stdBit : String → Option Nat
+  | "tsft" => some 0 | "flags" => some 1 | "rate" => some 2 | "channel" => some 3
+  | "dbm_signal" => some 5 | "dbm_noise" => some 6 | "signal_quality" => some 7 | "antenna" => some 11
+  | "db_signal" => some 12 | "rx_flags" => some 14 | "tx_flags" => some 15 | "data_retries" => some 17
+  | "xchannel" => some 18 | "mcs" => some 19 | _ => none
+
+structure OState where
+  /-- the writes so far (base map first); `none` = the case has left the specified fragment -/
+  ws : Option (List (Nat × Bytes)) := none
+  version : Nat := 0
+  pad : Nat := 0
+
+def kv (ws : List String) (key : String) : Option String :=
+  ws.findSome? (fun w => if w.startsWith (key ++ "=") then some ((w.drop (key.length + 1)).toString) else none)
+
+def S : Meta := stdMeta
+
+/-- expected text of a getter that reads the whole field `b` as one little-endian integer -/
+def expInt (m : FMap) (b : Nat) : String :=
+  match m b with
+  | some v => toString (leNat v)
+  | none => "!field_not_present"
+
+def expWith (m : FMap) (b : Nat) (f : Bytes → String) : String :=
+  match m b with
+  | some v => f v
+  | none => "!field_not_present"
+
+/-- the (key, expected value) pairs of a state line -/
+def expectations (m : FMap) : List (String × String) :=
+  let c := canonical S m
+  let tr := match m 1 with
+    | some v => if byteAt v 0 / 16 % 2 == 1 then "4" else "0"
+    | none => "0"
+  [("pl", toHex c), ("pr", toString (presentWord (fieldList S m))), ("hs", toString (4 + c.length)), ("tr", tr),
+   ("tsft", expInt m 0), ("flags", expInt m 1), ("rate", expInt m 2),
+   ("chfreq", expWith m 3 (fun v => toString (slice v 0 2))), ("chtype", expWith m 3 (fun v => toString (slice v 2 2))),
+   ("dbmsig", expInt m 5), ("dbmnoise", expInt m 6), ("sq", expInt m 7), ("ant", expInt m 11), ("dbsig", expInt m 12),
+   ("rxf", expInt m 14), ("txf", expInt m 15), ("dr", expInt m 17),
+   ("xch", expWith m 18 (fun d => s!"{slice d 0 4}/{slice d 4 2}/{slice d 6 1}/{slice d 7 1}")),
+   ("mcs", expWith m 19 (fun d => s!"{slice d 0 1}/{slice d 1 1}/{slice d 2 1}"))]
+
+def checkLine (m : FMap) (out : String) : String :=
+  let ow := words out
+  if out.startsWith "throw" then s!"violates no-throw {out}" else
+  match (expectations m).find? (fun e => kv ow e.1 != some e.2) with
+  | none => "ok"
+  | some e => s!"violates {e.1} expected={e.2} got={(kv ow e.1).getD "missing"}"
+
+def checkSer (o : OState) (m : FMap) (inner : Bytes) (out : String) : String :=
+  let ow := words out
+  if out.startsWith "throw" then s!"violates no-throw {out}" else
+  let c := canonical S m
+  let hs := 4 + c.length
+  let fcsOn := match m 1 with
+    | some v => byteAt v 0 / 16 % 2 == 1
+    | none => false
+  let badFcs := match m 1 with
+    | some v => byteAt v 0 / 64 % 2 == 1
+    | none => false
+  let tr := if fcsOn then 4 else 0
+  let hdr := [UInt8.ofNat o.version, UInt8.ofNat o.pad, UInt8.ofNat (hs % 256), UInt8.ofNat (hs / 256 % 256)] ++ c
+  if kv ow "n" != some (toString (hs + inner.length + tr)) then s!"violates ser-size expected={hs + inner.length + tr}"
+  else if kv ow "hdr" != some (toHex hdr) then s!"violates ser-header expected={toHex hdr}"
+  else if kv ow "body" != some "inner" then "violates ser-inner-bytes"
+  else if fcsOn && !inner.isEmpty && kv ow "fcs" != some "ok" then "violates ser-fcs"
+  else if !fcsOn && kv ow "fcs" != some "none" then "violates ser-fcs"
+  else if inner.isEmpty || (fcsOn && badFcs) then "ok"     -- nothing to re-parse / frames flagged bad-FCS are refused
+  else if kv ow "re" != some (toHex c) then s!"violates ser-reparse-fields got={(kv ow "re").getD "missing"}"
+  else if kv ow "reinner" != some "same" then "violates ser-reparse-inner"
+  else "ok"
+
+/-- spec mode: each input line is `<op> ||| <implementation output>` -/
+def specStep (st : OState) (line : String) : OState × String :=
+  match line.trimAscii.toString.splitOn " ||| " with
+  | [op, out] =>
+    match words op with
+    | ["tail"] => (st, "ok")
+    | ["new"] =>
+      let st' : OState := { ws := some defaultWrites }
+      (st', checkLine (lastWrite FMap.empty defaultWrites) out)
+    | ["parse", h] =>
+      match parseHex h with
+      | some b =>
+        let len := byteAt b 2 + 256 * byteAt b 3
+        let fs := if b.length ≥ 8 && len == b.length then decodeCanonical S (b.drop 4) else none
+        match fs with
+        | some fs =>
+          let m := mapOfList fs
+          let refused := match m 1 with
+            | some v => byteAt v 0 / 16 % 2 == 1 && byteAt v 0 / 64 % 2 == 1
+            | none => false
+          if refused then ({ ws := none }, "unspecified")
+          else ({ ws := some fs, version := byteAt b 0, pad := byteAt b 1 }, checkLine m out)
+        | none => ({ ws := none }, "unspecified")
+      | none => ({ ws := none }, "unspecified")
+    | ["set", f, h] =>
+      match st.ws, stdBit f, parseHex h with
+      | some ws, some b, some v =>
+        if decide (validWrite S (b, v)) then
+          let ws' := ws ++ [(b, v)]
+          ({ st with ws := some ws' }, checkLine (lastWrite FMap.empty ws') out)
+        else ({ st with ws := none }, "unspecified")
+      | _, _, _ => ({ st with ws := none }, "unspecified")
+    | ["add", n, h] =>
+      match st.ws, n.toNat?, parseHex h with
+      | some ws, some b, some v =>
+        if decide (validWrite S (b, v)) then
+          let ws' := ws ++ [(b, v)]
+          ({ st with ws := some ws' }, checkLine (lastWrite FMap.empty ws') out)
+        else ({ st with ws := none }, "unspecified")
+      | _, _, _ => ({ st with ws := none }, "unspecified")
+    | ["ser", h] =>
+      match st.ws, parseHex h with
+      | some ws, some inner => (st, checkSer st (lastWrite FMap.empty ws) inner out)
+      | _, _ => (st, "unspecified")
+    | _ => ({ st with ws := none }, "unspecified")
+  | _ => (st, "bad-line")
+
+def initSpec : OState := { ws := some defaultWrites }
 
 end Driver.C11
